@@ -107,3 +107,7 @@ def stats(cases, obsI):
         k = c.op + ":" + (o or "None")[:2]
         d[k] = d.get(k, 0) + 1
     return {"observations": d, "max_ops": max(len(c.args) for c in cases)}
+
+
+def shrinkable(c, ai):
+    return c.op == "sum.parse"
